@@ -98,9 +98,11 @@ add("C02", "other",
     "variables after the loop.", COMMON_NOTE + " Axiom used by the for-loop equation: functional_extensionality_dep (standard library).", DIFF)
 
 add("C19", "other",
-    "Partial. Proved in Coq (PropC19.v) about the VM model's report function: the report names the error class that is returned and "
-    "class names are distinct. Not proved: that the marked instruction and the listed frames are the failing one and the active "
-    "calls. Decided each run with failing programs whose failing operator, operand values and call chain are known by "
+    "Partial. Proved in Coq (PropC19.v, StepErr.v) about the VM model: every error site of every opcode attributes the error to "
+    "the instruction being executed in the context executing it; for binary operators the listed operands are the two fetched "
+    "operands and the class is the operator's verdict on exactly those; the report lists the code that ran, marks the failing "
+    "instruction and no other line, with the operand values on it; Run returns that report and a reset machine; the report names "
+    "the class, class names are distinct. Not proved: that the frames section lists the active calls. Decided each run with failing programs whose failing operator, operand values and call chain are known by "
     "construction (23 failure forms x depth 0-6 x plain/alias/loop/generator/nested generator): the real report is parsed and "
     "compared with the construction; and the full report text is compared byte for byte with the VM model.", COMMON_NOTE,
     "constructed-oracle testing of the Go report + byte-level correspondence with the Coq VM model")
